@@ -27,6 +27,7 @@ import . "github.com/pbenner/threadpool"
 /* -------------------------------------------------------------------------- */
 
 func (obj *Hmm) baumWelchThread(hmm1, hmm2 *Hmm, data HmmDataRecord, meta ConstVector, tmp *BaumWelchTmp, p ThreadPool) error {
+  defer func() { verifHook("bw.job.end", p.GetThreadId(), -1, tmp.init, tmp.likelihood) }()
   n := data.GetN()
   m := obj.M
   // get temporary memory
@@ -157,6 +158,7 @@ func (obj *Hmm) BaumWelchStep(hmm1, hmm2 *Hmm, data HmmDataSet, meta ConstVector
   }
   g := p.NewJobGroup()
   // loop over sequences
+  verifHook("bw.begin", len(tmp), data.GetNRecords(), false, 0.0)
   for d_ := 0; d_ < data.GetNRecords(); d_++ {
     // make a thread-safe copy of d
     d := d_
@@ -164,6 +166,7 @@ func (obj *Hmm) BaumWelchStep(hmm1, hmm2 *Hmm, data HmmDataSet, meta ConstVector
       if erf() != nil {
         return nil
       }
+      verifHook("bw.job.start", p.GetThreadId(), d, tmp[p.GetThreadId()].init, tmp[p.GetThreadId()].likelihood)
       r := data.GetRecord(d)
       return obj.baumWelchThread(hmm1, hmm2, r, meta, &tmp[p.GetThreadId()], p)
     }); err != nil {
@@ -179,6 +182,7 @@ func (obj *Hmm) BaumWelchStep(hmm1, hmm2 *Hmm, data HmmDataSet, meta ConstVector
   if err := p.Wait(g); err != nil {
     return math.Inf(-1), nil
   }
+  verifHook("bw.wait.return", 0, -1, false, 0.0)
   // get some temporary variables
   t1 := NullFloat64()
   t2 := NullFloat64()
@@ -214,12 +218,14 @@ func (obj *Hmm) BaumWelchStep(hmm1, hmm2 *Hmm, data HmmDataSet, meta ConstVector
     tmp[0].likelihood = 0.0
     tmp[0].init       = true
   }
+  verifHook("bw.merge", 0, -1, true, tmp[0].likelihood)
   // merge gamma variables and log-likelihoods
   for threadIdx := 1; threadIdx < len(tmp); threadIdx++ {
     if tmp[threadIdx].init == false {
       // this thread was never used
       continue
     }
+    verifHook("bw.merge", threadIdx, -1, true, tmp[threadIdx].likelihood)
     for c := 0; c < len(tmp[0].gamma); c++ {
       for l := 0; l < data.GetNMapped(); l++ {
         tmp[0].gamma[c].AT(l).LOGADD(
@@ -233,5 +239,6 @@ func (obj *Hmm) BaumWelchStep(hmm1, hmm2 *Hmm, data HmmDataSet, meta ConstVector
   if err := hmm1.normalize(t1, t2); err != nil {
     return math.Inf(-1), err
   }
+  verifHook("bw.end", 0, -1, true, tmp[0].likelihood)
   return tmp[0].likelihood, nil
 }
